@@ -444,6 +444,7 @@ func (c *Cluster) startNode(n *SimNode, bootstrap bool) error {
 		peers.NewPeerSet(clonePeers(n.genesisPeers)),
 		store, n.trans, n.app)
 	n.acceptedTxs = nil
+	n.leaving = false
 	n.lastSigs = map[int]map[string]string{}
 	n.lastAnchor = -1
 	n.anchorEpoch++
